@@ -18,6 +18,7 @@ const (
 	xError            // Recv must fail; data alongside may only be Partial (an unshortened final fragment)
 	xEnd              // the stream is exhausted: Recv must fail, without data
 	xUnspec           // the documentation does not say; from here on only "no fabricated bytes" is judged
+	xRecordOpt        // an error is acceptable; without one the result must be exactly Rec
 )
 
 type expect struct {
@@ -166,10 +167,13 @@ func (d *refHdr) Next() expect {
 		}
 		return expect{Kind: xError, Why: "Content-Length is not a non-negative decimal number"}
 	}
+	optional := false
 	if len(cl) > 18 || (len(cl) > 1 && cl[0] == '0') {
-		// an implementation may bound the digits it reads, or refuse a padded number
-		d.lost = true
-		return expect{Kind: xUnspec, Why: "Content-Length with leading zeros or more than 18 digits"}
+		// an implementation may bound the digits it reads, or refuse a padded
+		// number: whether it reports an error is open. What it may not do is
+		// return, without error, anything but the record of the declared length
+		// (the value is evaluated below without overflow).
+		optional = true
 	}
 	// the declared length, saturating
 	n := 0
@@ -195,12 +199,16 @@ func (d *refHdr) Next() expect {
 	} else {
 		mismatch = haveCT && ct != d.mime
 	}
+	if optional && !mismatch {
+		d.lost = true // after an error the position is unknown; after a record the caller goes on in tail mode too
+		return expect{Kind: xRecordOpt, Rec: rec, Why: "Content-Length with leading zeros or more than 18 digits"}
+	}
 	if mismatch {
 		if strings.EqualFold(ct, d.mime) {
 			d.lost = true
 			return expect{Kind: xUnspec, Why: "content types differ only in case"}
 		}
-		if ct == "" {
+		if haveCT && ct == "" {
 			d.lost = true
 			return expect{Kind: xUnspec, Why: "Content-Type field with an empty value"}
 		}
